@@ -107,6 +107,7 @@ class SymExec:
         self._te = TermEval(atom_hook=self._hook)
         self._tmp = 0
         self._n_leaves = 0
+        self.used: set[str] = set()  # quals of the helpers that were executed / fused
 
     # ------------------------------------------------------------------ values
     def mk(self, name: str, parts: tuple[Any, ...]) -> Poly:
@@ -197,6 +198,14 @@ class SymExec:
             out = []
             left = e.left
             for op, right in zip(e.ops, e.comparators):
+                if isinstance(op, (ast.In, ast.NotIn)) and isinstance(right, (ast.Tuple, ast.List)) \
+                        and isinstance(left, ast.Constant) and left.value is None \
+                        and not any(isinstance(x, ast.Starred) for x in right.elts):
+                    # `None in (a, b, c)`: one of them is None
+                    c = cjoin("or", [("is", frozenset((repr(self.ev(x, env)), "None"))) for x in right.elts])
+                    out.append(c if isinstance(op, ast.In) else cneg(c))
+                    left = right
+                    continue
                 lp, rp = self.ev(left, env), self.ev(right, env)
                 folded = self._fold(lp, op, rp)
                 out.append(folded if folded is not None else self._cmp(repr(lp), op, repr(rp)))
@@ -204,6 +213,22 @@ class SymExec:
             return cjoin("and", out)
         if isinstance(e, ast.Constant) and isinstance(e.value, bool):
             return ("const", e.value)
+        if isinstance(e, ast.Call) and isinstance(e.func, ast.Name) and e.func.id in ("any", "all") and len(e.args) == 1 \
+                and not e.keywords and isinstance(e.args[0], (ast.GeneratorExp, ast.ListComp)):
+            # any(P(v) for v in (a, b, c)) over a literal sequence is P(a) or P(b) or P(c)
+            g = e.args[0]
+            gen = g.generators[0]
+            if len(g.generators) == 1 and isinstance(gen.iter, (ast.Tuple, ast.List)) and isinstance(gen.target, ast.Name) \
+                    and not gen.is_async and not any(isinstance(x, ast.Starred) for x in gen.iter.elts):
+                kids = []
+                for x in gen.iter.elts:
+                    env2 = dict(env)
+                    env2[gen.target.id] = self.ev(x, env)
+                    c = cjoin("and", [self.cond(i, env2) for i in gen.ifs] + [self.cond(g.elt, env2)])
+                    if e.func.id == "all" and gen.ifs:
+                        c = cjoin("or", [cneg(cjoin("and", [self.cond(i, env2) for i in gen.ifs])), self.cond(g.elt, env2)])
+                    kids.append(c)
+                return cjoin("or" if e.func.id == "any" else "and", kids)
         p = self.ev(e, env)
         st = self.parts(p, "cond")
         if st is not None:
@@ -445,6 +470,7 @@ class SymExec:
     def _run_helper(self, call: ast.Call, env: Env, facts: tuple[Fact, ...], on_value: Any, ctl: Any) -> None:
         h = self._helper(call)
         assert h is not None
+        self.used.add(h.qual)
         henv = self._bind(h, call, env)
         assert henv is not None
         self.fn_stack.append(h)
@@ -637,6 +663,7 @@ def fuse_generator_loop(sym: SymExec, loop: ast.For) -> ast.For:
                 out.append(s)
         return out
 
+    sym.used.add(h.qual)
     g.body = weave(g.body, True)
     ast.copy_location(g, loop)
     ast.fix_missing_locations(g)
